@@ -47,7 +47,13 @@ VARIANTS: dict[str, dict[str, str | None]] = {
 # extensions used by the richer (thorough / C03 / C10) catalogues
 EXT_VARIANTS: dict[str, dict[str, str | None]] = {
     "c.pyi": {"s-": None, "s0": "def f() -> int: ...\nclass K:\n    x: int\n", "s1": "def f() -> str: ...\nclass K:\n    x: str\n"},
-    "d": {"d-": None, "d0": "import a\nimport c\nu: int = c.f()\n", "d1": "from b import *\n"},
+    "d": {"d-": None, "d0": "import a\nimport c\nu: int = c.f()\n", "d1": "from b import *\n", "d2": "import a\nimport p.x\n"},
+    # a package whose submodule is only reachable when somebody imports it
+    "p/__init__": {"p-": None, "p0": ""},
+    "p/x": {"x-": None, "x0": "class C:\n    n: int = 0\n", "x1": "class C:\n    n: str = ''\n"},
+    "e": {"e-": None, "e0": "import p\nw: int = p.x.C().n\n"},
+    # where b.py lives (a move keeps content and mtime): "" = next to a.py, else a sub-directory on mypy_path
+    "@bdir": {"": "", "d1": "d1", "d2": "d2"},
     "b_cyc": {},
 }
 # Catalogue M: aligned one-to-one with spec/Incremental.tla's abstract contents
@@ -97,6 +103,8 @@ def all_worlds() -> list[dict[str, str]]:
 
 
 def text_of(mod: str, vid: str) -> str | None:
+    if mod == "@bdir":
+        return vid
     if mod in VARIANTS and vid in VARIANTS[mod]:
         return VARIANTS[mod][vid]
     return EXT_VARIANTS[mod][vid]
@@ -119,8 +127,31 @@ class Tree:
         self.tick += 1
         return self.tick
 
+    def bpath(self) -> str:
+        d = self.world.get("@bdir", "")
+        return os.path.join(d, "b.py") if d else "b.py"
+
+    def sources(self, roots: list[str] | None = None) -> list[tuple[str, str]]:
+        """Source list: the roots (default a, plus d / e when present); b is listed explicitly when it lives in a sub-directory."""
+        res = []
+        for m in (roots or ["a", "d", "e"]):
+            if os.path.exists(os.path.join(self.root, m + ".py")):
+                res.append((m + ".py", m))
+        if self.world.get("@bdir"):
+            res.append((self.bpath(), "b"))
+        return res
+
     def set(self, mod: str, vid: str, touch_only: bool = False) -> None:
-        p = os.path.join(self.root, path_of(mod))
+        if mod == "@bdir":
+            old = self.bpath()
+            self.world["@bdir"] = vid
+            new = self.bpath()
+            if old != new and os.path.exists(os.path.join(self.root, old)):
+                os.makedirs(os.path.dirname(os.path.join(self.root, new)) or self.root, exist_ok=True)
+                os.rename(os.path.join(self.root, old), os.path.join(self.root, new))     # content and mtime unchanged
+            return
+        p = os.path.join(self.root, self.bpath() if mod == "b" else path_of(mod))
+        os.makedirs(os.path.dirname(p), exist_ok=True)
         txt = text_of(mod, vid)
         if txt is None:
             if os.path.exists(p):
@@ -135,7 +166,7 @@ class Tree:
         self.world[mod] = vid
 
     def apply(self, world: dict[str, str]) -> None:
-        for mod, vid in world.items():
+        for mod, vid in sorted(world.items()):     # "@bdir" first
             if self.world.get(mod) != vid or (text_of(mod, vid) is None and mod in self.world):
                 self.set(mod, vid)
 
@@ -352,7 +383,7 @@ def run_build(root: str, *, cache_dir: str | None, store: str = "fs", fmt: str =
     sources = sources or [("a.py", "a")]
     ctl: dict[str, Any] = {"nops": 0, "nwrites": 0, "tick": tick, "trace": [], "record": record,
                            "kill_after": kill_after, "fail_writes": set(fail_writes),
-                           "user_mods": None if user_mods == "*" else (user_mods or ["a", "b", "c", "d", "p", "p.x", "p.y"])}
+                           "user_mods": None if user_mods == "*" else (user_mods or ["a", "b", "c", "d", "e", "p", "p.x", "p.y"])}
     opts_kw = dict(cache_dir=cache_dir, store=store, fmt=fmt, **(extra_opts or {}))
     rfd, wfd = os.pipe()
     sys.stdout.flush(); sys.stderr.flush()
